@@ -11,6 +11,8 @@ func ruleC10(prog *Program, rep *Report) {
 	rulePadBound(prog, rep) // pretty.SEN lays out with the same alignment pads
 	ruleFlatSeparator(prog, rep)
 	rulePoolPut(prog, rep, "sen.Writer", "sen.Parser")
+	ruleMemberStore(prog, rep) // a string written as "a" + "b" pieces is joined onto the member stored last
+	ruleGenTwins(prog, rep, 2, "pretty")
 	ruleEntryParity(prog, rep, "sen.Writer", "sen.Parser")
 	rep.Rules = append(rep.Rules, "A-stale (SEN): sen.Parser and sen.Tokenizer, explored alone, never read control state left by a previous call and never append to a scratch buffer whose content was consumed (a string would come back with a stale prefix)")
 	sres := exploreFrontEnds(prog, senFrontEnds, []bool{false}, true)
